@@ -7,10 +7,12 @@ CONSTANTS
   MaxReq = 3
   MaxW = 2
   MaxR = 2
-  MaxAtt = 2
+  MaxAtt = 10
   MaxFaults = 0
   SubsInit = {FALSE}
   MaySubscribe = TRUE
+  RestoreReqs = {1, 2, 3}
+  Loose = TRUE
   Guarded = FALSE
 CONSTRAINT TConstraint
 INVARIANT AtMostOneLink
